@@ -7,6 +7,7 @@ toolchain go1.23.5
 require (
 	github.com/vektah/gqlparser/v2 v2.0.0-00010101000000-000000000000
 	golang.org/x/tools v0.29.0
+	gopkg.in/yaml.v3 v3.0.1
 )
 
 require (
